@@ -112,7 +112,7 @@ class C17(Prop):
     quick_cases = 2500
     thorough_cases = 40000
     shard = 160
-    rule = ("random programs (<=30 events) of NewSpan/Record/Enter/Exit/Drop/Emit on 1-3 threads over 65 static callsites "
+    rule = ("random programs (4-30 events plus closing emissions; directed families up to ~42 events) of NewSpan/Record/Enter/Exit/Drop/Emit on 1-3 threads over 65 static callsites "
             "(every ordered selection of distinct names from {a,b,c,d}), parents contextual/root/explicit, values "
             "Empty/str/bool/i64/u64/i128/f64/?Debug/%Display from small alphabets, metric labels from {a..e} (duplicates allowed), "
             "filters IncludeAll / Allowlist / first-match table predicate; plus an adversarial stream (same name on every level of a "
